@@ -142,7 +142,7 @@ BOUND_NAMES = (("feed", "feed-rate"), ("power", "tool-power"), ("toolnum", "tool
 class Session:
     """One recorded history on one real builder."""
 
-    def __init__(self, dp=3, exact=True, line_endings="\n", builder_kwargs=None, with_raw=False):
+    def __init__(self, dp=3, exact=True, line_endings="\n", builder_kwargs=None, with_raw=False, with_xf=False):
         from gscrib import GCodeBuilder
         self.dp = dp
         self.U = 10 ** dp
@@ -164,6 +164,7 @@ class Session:
         self.events = []
         self.hook_log = []
         self.with_raw = with_raw
+        self.with_xf = with_xf
         self.probe_hook = None
         self.ext_hook = None
         self.init_rep = self.snapshot()
@@ -343,6 +344,25 @@ class Session:
             return None
         if c == "trace":
             return self._trace(d)
+        if c.startswith("xf_"):
+            t = g.transform
+            k = c[3:]
+            if k == "translate":
+                return t.translate(*d["v"])
+            if k == "rotate":
+                return t.rotate(d["angle"], d["axis"])
+            if k == "scale":
+                return t.scale(*d["v"])
+            if k == "mirror":
+                return t.mirror(d["plane"])
+            if k == "reflect":
+                return t.reflect(list(d["normal"]))
+            if k == "set_pivot":
+                return t.set_pivot(tuple(d["P"]))
+            if k == "save":
+                return t.save_state()
+            if k == "restore":
+                return t.restore_state()
         raise KeyError("unknown call %r" % c)
 
     def _trace(self, d):
@@ -382,8 +402,17 @@ class Session:
                 lines.append(ln)
         return lines
 
+    def observe_xf(self):
+        """The map in force, through the public apply_transform(): linear part scaled 1e4, translation in trace units."""
+        t = self.g.transform
+        o = t.apply_transform((0.0, 0.0, 0.0))
+        cols = [t.apply_transform(e) for e in ((1.0, 0.0, 0.0), (0.0, 1.0, 0.0), (0.0, 0.0, 1.0))]
+        a = [[int(round((cols[j][i] - o[i]) * 10000)) for j in range(3)] for i in range(3)]
+        return {"a": a, "b": [int(round(c * self.U)) for c in o]}
+
     def apply(self, d):
         self.hook_log.clear()
+        xf = self.observe_xf() if self.with_xf else None
         out = "ok"
         try:
             self._dispatch(d)
@@ -398,6 +427,8 @@ class Session:
             "hooks": [dict(h) for h in self.hook_log],
             "ph": self.probe_hook is not None and self._hook_registered(self.probe_hook),
         }
+        if xf is not None:
+            ev["xf"] = xf
         self.events.append(ev)
         return ev
 
@@ -407,7 +438,7 @@ class Session:
         return hook in getattr(self.g, "_hooks", [])
 
     def trace(self, meta=None):
-        m = {"dp": self.dp, "U": self.U, "exact": self.exact, "xf": False}
+        m = {"dp": self.dp, "U": self.U, "exact": self.exact, "xf": self.with_xf}
         if meta:
             m.update(meta)
         return {"meta": m, "init": self.init_rep, "ev": self.events}
